@@ -26,6 +26,7 @@
 #include <sys/wait.h>
 #include <unistd.h>
 
+#include <algorithm>
 #include <cstdio>
 #include <cstdlib>
 #include <cstring>
@@ -434,7 +435,7 @@ static void exec_line(const std::string &line) {
     objs[h]->save(out);
     images[img] = out.str();
     emit("{\"e\":\"Save\",\"h\":" + std::to_string(h) + ",\"img\":" + std::to_string(img) + ",\"bytes\":" + limbs(images[img].size()) + ",\"dg\":\"" +
-         digest(images[img]) + "\"}");
+         digest(images[img]) + "\",\"hd\":" + bytesj((const unsigned char *)images[img].data(), std::min<size_t>(28, images[img].size())) + "}");
   } else if (op == "CAT") {
     int st, img;
     ss >> st;
